@@ -1191,3 +1191,427 @@ example :
   decide
 
 end Dvid.Props.C07
+
+namespace Dvid.Props.C07
+open Dvid Dvid.Manager
+
+/-! ### named branches: no fork, one start -/
+
+/-- `m` starts its branch: no parent of `m` in the same repo is on `m`'s branch -/
+def Start (ns : List Node) (m : Node) : Prop := ∀ n ∈ ns, n.v ∈ m.parents → n.repo = m.repo → n.branch ≠ m.branch
+
+/-- a node of a named branch has at most one child on that branch, and a named branch of a repo has one start -/
+def BranchL (ns : List Node) : Prop :=
+  (∀ m1 ∈ ns, ∀ m2 ∈ ns, ∀ n ∈ ns, m1.branch ≠ "" → m1.repo = n.repo → m2.repo = n.repo →
+      m1.branch = n.branch → m2.branch = n.branch → n.v ∈ m1.parents → n.v ∈ m2.parents → m1 = m2) ∧
+  (∀ m1 ∈ ns, ∀ m2 ∈ ns, m1.branch ≠ "" → m1.repo = m2.repo → m1.branch = m2.branch →
+      Start ns m1 → Start ns m2 → m1 = m2)
+
+def BranchInv (s : State) : Prop := BranchL s.nodes
+
+def PresB (g : Node → Node) : Prop := ∀ n, (g n).branch = n.branch
+
+theorem presB_ite (c : Node → Prop) [DecidablePred c] (f : Node → Node) (hf : PresB f) :
+    PresB (fun n => if c n then f n else n) := by
+  intro n; by_cases h : c n <;> simp [h, hf n]
+
+theorem start_map {ns : List Node} (g : Node → Node) (hg : Pres g) (hb : PresB g) (m : Node) :
+    Start (ns.map g) (g m) ↔ Start ns m := by
+  unfold Start
+  constructor
+  · intro h n hn hp hr
+    have := h (g n) (List.mem_map.mpr ⟨n, hn, rfl⟩) (by rw [(hg n).1, (hg m).2.2.1]; exact hp)
+      (by rw [(hg n).2.1, (hg m).2.1]; exact hr)
+    rw [hb n, hb m] at this; exact this
+  · intro h n' hn' hp hr
+    obtain ⟨n, hn, rfl⟩ := List.mem_map.mp hn'
+    rw [(hg n).1, (hg m).2.2.1] at hp
+    rw [(hg n).2.1, (hg m).2.1] at hr
+    rw [hb n, hb m]; exact h n hn hp hr
+
+theorem branchL_map {ns : List Node} (g : Node → Node) (hg : Pres g) (hb : PresB g)
+    (h : BranchL ns) : BranchL (ns.map g) := by
+  constructor
+  · intro m1' h1 m2' h2 n' hn
+    obtain ⟨m1, hm1, rfl⟩ := List.mem_map.mp h1
+    obtain ⟨m2, hm2, rfl⟩ := List.mem_map.mp h2
+    obtain ⟨n, hn0, rfl⟩ := List.mem_map.mp hn
+    rw [hb m1, hb m2, hb n, (hg m1).2.1, (hg m2).2.1, (hg n).2.1, (hg n).1, (hg m1).2.2.1, (hg m2).2.2.1]
+    intro a b c d e f k
+    rw [h.1 m1 hm1 m2 hm2 n hn0 a b c d e f k]
+  · intro m1' h1 m2' h2
+    obtain ⟨m1, hm1, rfl⟩ := List.mem_map.mp h1
+    obtain ⟨m2, hm2, rfl⟩ := List.mem_map.mp h2
+    rw [hb m1, hb m2, (hg m1).2.1, (hg m2).2.1, start_map g hg hb m1, start_map g hg hb m2]
+    intro a b c d e
+    rw [h.2 m1 hm1 m2 hm2 a b c d e]
+
+/-- appending a node whose version id is not a parent of any existing node -/
+theorem branchL_snoc {ns : List Node} (h : BranchL ns) (c : Node)
+    (hfresh : ∀ n ∈ ns, c.v ∉ n.parents) (hself : c.v ∉ c.parents)
+    (hF : c.branch ≠ "" → ∀ m ∈ ns, ∀ n ∈ ns, m.repo = n.repo → c.repo = n.repo → m.branch = n.branch →
+      c.branch = n.branch → n.v ∈ m.parents → n.v ∈ c.parents → False)
+    (hS : c.branch ≠ "" → (¬ Start ns c) ∨ (∀ m ∈ ns, m.repo = c.repo → m.branch ≠ c.branch)) :
+    BranchL (ns ++ [c]) := by
+  have hstart_old : ∀ m ∈ ns, Start (ns ++ [c]) m ↔ Start ns m := by
+    intro m hm
+    unfold Start
+    constructor
+    · intro hs n hn; exact hs n (List.mem_append_left _ hn)
+    · intro hs n hn hp
+      rcases List.mem_append.mp hn with hn1 | hn1
+      · exact hs n hn1 hp
+      · simp only [List.mem_singleton] at hn1; rw [hn1] at hp; exact absurd hp (hfresh m hm)
+  have hstart_c : Start (ns ++ [c]) c ↔ Start ns c := by
+    unfold Start
+    constructor
+    · intro hs n hn; exact hs n (List.mem_append_left _ hn)
+    · intro hs n hn hp
+      rcases List.mem_append.mp hn with hn1 | hn1
+      · exact hs n hn1 hp
+      · simp only [List.mem_singleton] at hn1; rw [hn1] at hp; exact absurd hp hself
+  constructor
+  · intro m1 h1 m2 h2 n hn hb r1 r2 b1 b2 p1 p2
+    rcases List.mem_append.mp hn with hn1 | hn1
+    · rcases List.mem_append.mp h1 with a | a <;> rcases List.mem_append.mp h2 with b | b
+      · exact h.1 m1 a m2 b n hn1 hb r1 r2 b1 b2 p1 p2
+      · simp only [List.mem_singleton] at b; subst b
+        exact (hF (by rw [b2, ← b1]; exact hb) m1 a n hn1 r1 r2 b1 b2 p1 p2).elim
+      · simp only [List.mem_singleton] at a; subst a
+        exact (hF hb m2 b n hn1 r2 r1 b2 b1 p2 p1).elim
+      · simp only [List.mem_singleton] at a b; rw [a, b]
+    · simp only [List.mem_singleton] at hn1; subst hn1
+      rcases List.mem_append.mp h1 with a | a
+      · exact absurd p1 (hfresh m1 a)
+      · simp only [List.mem_singleton] at a; subst a; exact absurd p1 hself
+  · intro m1 h1 m2 h2 hb r b s1 s2
+    rcases List.mem_append.mp h1 with a | a <;> rcases List.mem_append.mp h2 with b' | b'
+    · exact h.2 m1 a m2 b' hb r b ((hstart_old m1 a).mp s1) ((hstart_old m2 b').mp s2)
+    · simp only [List.mem_singleton] at b'; subst b'
+      rcases hS (by rw [← b]; exact hb) with hs | hs
+      · exact absurd (hstart_c.mp s2) hs
+      · exact absurd b (hs m1 a r)
+    · simp only [List.mem_singleton] at a; subst a
+      rcases hS hb with hs | hs
+      · exact absurd (hstart_c.mp s1) hs
+      · exact absurd b.symm (hs m2 b' r.symm)
+    · simp only [List.mem_singleton] at a b'; rw [a, b']
+
+theorem presB_addChild (c : Nat) : PresB (fun n => { n with children := n.children ++ [c] }) := by
+  intro n; rfl
+theorem presB_lock : PresB (fun n => { n with locked := true }) := by
+  intro n; rfl
+
+theorem newRepo_branch (s : State) (a : Option String) (hi : Inv s) (h : BranchInv s) : BranchInv (newRepo s a).1 := by
+  unfold newRepo
+  split
+  · exact h
+  · split
+    · exact h
+    · rename_i s1 uuid v hu
+      obtain ⟨hn, _, hv, _⟩ := newUUID_nodes hu
+      unfold BranchInv at h ⊢
+      simp only [hn]
+      apply branchL_snoc h
+      · intro n hn' hp
+        have hp' : v ∈ n.parents := hp
+        have := (hi.2 n hn' v hp').1
+        have := hi.1 n hn'
+        omega
+      · simp
+      · intro hb; exact absurd rfl hb
+      · intro hb; exact absurd rfl hb
+
+theorem commit_branch (s : State) (u : String) (h : BranchInv s) : BranchInv (commit s u).1 := by
+  unfold commit
+  repeat' split
+  all_goals first
+    | exact h
+    | (unfold BranchInv State.updNode
+       exact branchL_map _ (pres_ite _ _ pres_lock) (presB_ite _ _ presB_lock) h)
+
+/-- what the branch check of `newVersion` established -/
+theorem branchOk_spec {s : State} {repo : String} {node : Node} {b bname : String} (h : branchOk s repo node b = some bname) :
+    (bname = node.branch ∧ ∀ c ∈ node.children, ∃ sis, s.node? repo c = some sis ∧ sis.branch ≠ node.branch) ∨
+    (bname ≠ node.branch ∧ ∀ n ∈ s.nodes, n.repo = repo → n.branch ≠ bname) := by
+  unfold branchOk at h
+  split at h
+  · split at h
+    · rename_i hall
+      cases h
+      left
+      refine ⟨rfl, ?_⟩
+      intro c hc
+      have := List.all_eq_true.mp hall c hc
+      cases hq : s.node? repo c with
+      | none => rw [hq] at this; cases this
+      | some sis => rw [hq] at this; exact ⟨sis, rfl, by simpa using this⟩
+    · cases h
+  · rename_i hne
+    split at h
+    · rename_i hall
+      cases h
+      right
+      constructor
+      · intro e; apply hne; simp [e]
+      · intro n hn hr
+        have := List.all_eq_true.mp hall n (List.mem_filter.mpr ⟨hn, by simpa using hr⟩)
+        simpa using this
+    · cases h
+
+theorem attachChild_branch (s s1 : State) (repo : String) (v : Nat) (cu : String) (cv : Nat) (b bname : String)
+    (node : Node) (hi : Inv s) (hid : IdInv s) (hl : LinkInv s) (h : BranchInv s) (hn : s1.nodes = s.nodes)
+    (hcv : cv = s.nextV) (hmem : node ∈ s.nodes) (hnodev : node.v = v) (hnoder : node.repo = repo)
+    (hb : branchOk s repo node b = some bname) :
+    BranchInv (attachChild s1 repo v cu cv bname) := by
+  unfold BranchInv attachChild
+  simp only [State.updNode, hn]
+  let g : Node → Node := fun n => if n.v = v ∧ n.repo = repo then { n with children := n.children ++ [cv] } else n
+  have hg : Pres g := pres_ite (fun n => n.v = v ∧ n.repo = repo) _ (pres_addChild cv)
+  have hgb : PresB g := presB_ite (fun n => n.v = v ∧ n.repo = repo) _ (presB_addChild cv)
+  have hfreshv : ∀ n ∈ s.nodes.map g, n.v < cv := by
+    intro n hn'
+    obtain ⟨n0, hn0, rfl⟩ := List.mem_map.mp hn'
+    rw [(hg n0).1, hcv]; exact hi.1 n0 hn0
+  rw [filter_fresh hfreshv repo]
+  apply branchL_snoc (branchL_map g hg hgb h)
+  · intro n hn' hp
+    obtain ⟨n0, hn0, rfl⟩ := List.mem_map.mp hn'
+    rw [(hg n0).2.2.1] at hp
+    have hp' : cv ∈ n0.parents := hp
+    have := (hi.2 n0 hn0 cv hp').1
+    have := hi.1 n0 hn0
+    omega
+  · simp only [List.mem_singleton]
+    have := hi.1 node hmem
+    omega
+  · -- no existing node of the branch hangs off the parent
+    intro hbn m' hm' n' hn' r1 r2 b1 b2 p1 p2
+    obtain ⟨m, hm, rfl⟩ := List.mem_map.mp hm'
+    obtain ⟨n, hn0, rfl⟩ := List.mem_map.mp hn'
+    simp only [List.mem_singleton] at p2
+    rw [(hg n).1] at p2 p1
+    rw [(hg m).2.2.1] at p1
+    rw [(hg n).2.1] at r1 r2
+    rw [(hg m).2.1] at r1
+    rw [hgb n] at b1 b2
+    rw [hgb m] at b1
+    simp only at r2 b2
+    have hnnode : n = node := hid.1 n hn0 node hmem (by rw [p2, hnodev])
+    rcases branchOk_spec hb with ⟨e, hall⟩ | ⟨_, hnone⟩
+    · -- continuing the parent's branch: the check saw every child of the parent
+      obtain ⟨n2, hn2, hn2v, hn2r, hmc⟩ := hl.2.1 m hm _ p1
+      have : n2 = node := hid.1 n2 hn2 node hmem (by rw [hn2v, p2, hnodev])
+      rw [this] at hmc
+      obtain ⟨sis, hsis, hsb⟩ := hall _ hmc
+      obtain ⟨hsm, hsv, hsr⟩ := node?_mem hsis
+      have : sis = m := hid.1 sis hsm m hm hsv
+      rw [this] at hsb
+      apply hsb
+      rw [b1, hnnode]
+    · exact hnone n hn0 r2.symm b2.symm
+  · intro hbn
+    rcases branchOk_spec hb with ⟨e, _⟩ | ⟨_, hnone⟩
+    · left
+      intro hs
+      have := hs (g node) (List.mem_map.mpr ⟨node, hmem, rfl⟩) (by rw [(hg node).1]; simp [hnodev])
+        (by rw [(hg node).2.1]; exact hnoder)
+      rw [hgb node] at this
+      exact this e.symm
+    · right
+      intro m' hm' hr
+      obtain ⟨m, hm, rfl⟩ := List.mem_map.mp hm'
+      rw [(hg m).2.1] at hr
+      rw [hgb m]
+      exact hnone m hm hr
+
+theorem newVersion_branch (s : State) (p b : String) (a : Option String) (hi : Inv s) (hid : IdInv s) (hl : LinkInv s)
+    (h : BranchInv s) : BranchInv (newVersion s p b a).1 := by
+  unfold newVersion
+  cases hr : lookup s.repos p with
+  | none => exact h
+  | some repo =>
+    cases hv : lookup s.u2v p with
+    | none => exact h
+    | some v =>
+      simp only
+      cases hnode : s.node? repo v with
+      | none => exact h
+      | some node =>
+        simp only
+        cases hlk : node.locked with
+        | false => simp; exact h
+        | true =>
+          simp only [Bool.not_true, Bool.false_eq_true, if_false]
+          cases hb : branchOk s repo node b with
+          | none => exact h
+          | some bname =>
+            simp only
+            cases hu : newUUID s a with
+            | none => exact h
+            | some t =>
+              obtain ⟨s1, cu, cv⟩ := t
+              obtain ⟨hn, _, hcv, _⟩ := newUUID_nodes hu
+              obtain ⟨hmem, hnodev, hnoder⟩ := node?_mem hnode
+              exact attachChild_branch s s1 repo v cu cv b bname node hi hid hl h hn hcv hmem hnodev hnoder hb
+
+theorem foldl_updNode_presB (repo : String) (cv : Nat) (pvs : List Nat) (s : State) :
+    ∃ g : Node → Node, Pres g ∧ PresB g ∧
+      (pvs.foldl (fun st pv => st.updNode repo pv (fun n => { n with children := n.children ++ [cv] })) s).nodes = s.nodes.map g := by
+  induction pvs generalizing s with
+  | nil => exact ⟨id, fun _ => ⟨rfl, rfl, rfl, id⟩, fun _ => rfl, by simp⟩
+  | cons pv rest ih =>
+    simp only [List.foldl_cons]
+    obtain ⟨g, hg, hgb, hn⟩ := ih (s.updNode repo pv (fun n => { n with children := n.children ++ [cv] }))
+    let f : Node → Node := fun n => if n.v = pv ∧ n.repo = repo then { n with children := n.children ++ [cv] } else n
+    have hf : Pres f := pres_ite (fun n => n.v = pv ∧ n.repo = repo) _ (pres_addChild cv)
+    have hfb : PresB f := presB_ite (fun n => n.v = pv ∧ n.repo = repo) _ (presB_addChild cv)
+    refine ⟨g ∘ f, ?_, ?_, ?_⟩
+    · intro n
+      have a := hf n
+      have b := hg (f n)
+      exact ⟨by simp [Function.comp, b.1, a.1], by simp [Function.comp, b.2.1, a.2.1],
+        by simp [Function.comp, b.2.2.1, a.2.2.1], fun hl => b.2.2.2 (a.2.2.2 hl)⟩
+    · intro n; simp [Function.comp, hgb (f n), hfb n]
+    · rw [hn]; simp [State.updNode, List.map_map, f]
+
+theorem linkMerge_branch (s s1 : State) (repo : String) (pvs : List Nat) (cu : String) (cv : Nat)
+    (hi : Inv s) (h : BranchInv s) (hn : s1.nodes = s.nodes) (hcv : cv = s.nextV)
+    (hp : ∀ v ∈ pvs, ∃ m ∈ s.nodes, m.v = v ∧ m.repo = repo ∧ m.locked = true) :
+    BranchInv (linkMerge s1 repo pvs cu cv) := by
+  unfold BranchInv linkMerge
+  obtain ⟨g, hg, hgb, hgn⟩ := foldl_updNode_presB repo cv pvs { s1 with repos := setKey s1.repos cu repo }
+  simp only
+  rw [hgn]
+  simp only [hn]
+  apply branchL_snoc (branchL_map g hg hgb h)
+  · intro n hn' hpp
+    obtain ⟨n0, hn0, rfl⟩ := List.mem_map.mp hn'
+    rw [(hg n0).2.2.1] at hpp
+    have hp' : cv ∈ n0.parents := hpp
+    have := (hi.2 n0 hn0 cv hp').1
+    have := hi.1 n0 hn0
+    omega
+  · intro hm
+    obtain ⟨m, hmm, hmv, _⟩ := hp cv hm
+    have := hi.1 m hmm
+    omega
+  · intro hb; exact absurd rfl hb
+  · intro hb; exact absurd rfl hb
+
+theorem merge_branch (s : State) (ps : List String) (hi : Inv s) (h : BranchInv s) : BranchInv (merge s ps).1 := by
+  unfold merge
+  simp only [Gen.mergeValidatesFirst, if_true]
+  split
+  · exact h
+  · cases hrepo : (ps.head? >>= lookup s.repos) with
+    | none => exact h
+    | some repo =>
+      simp only
+      cases hpvs : ps.mapM (mergeParentOk s repo) with
+      | none => exact h
+      | some pvs =>
+        simp only
+        split
+        · exact h
+        · cases hu : newUUID s none with
+          | none => exact h
+          | some t =>
+            obtain ⟨s1, cu, cv⟩ := t
+            obtain ⟨hn, _, hcv, _⟩ := newUUID_nodes hu
+            exact linkMerge_branch s s1 repo pvs cu cv hi h hn hcv (mapM_mergeParentOk hpvs)
+
+theorem tag_branch (s : State) (p t : String) (hi : Inv s) (hid : IdInv s) (hl : LinkInv s) (h : BranchInv s) :
+    BranchInv (tag s p t).1 := by
+  unfold tag
+  split
+  · exact h
+  · have h1 := newVersion_branch s p ("tag-" ++ t) (some t) hi hid hl h
+    cases hnv : newVersion s p ("tag-" ++ t) (some t) with
+    | mk s1 r1 =>
+      rw [hnv] at h1
+      simp only at h1 ⊢
+      cases r1 with
+      | err => simp only [Gen.tagCommitsOnlyOnSuccess, if_true]; exact h1
+      | ok u => exact commit_branch s1 t h1
+
+theorem deleteRepo_branch (s : State) (u : String) (h : BranchInv s) : BranchInv (deleteRepo s u).1 := by
+  unfold deleteRepo
+  split
+  · exact h
+  · rename_i repo _
+    split
+    · exact h
+    · unfold BranchInv
+      simp only [dropIds_fold_nodes]
+      have hst : ∀ m ∈ s.nodes, m.repo ≠ repo → (Start (s.nodes.filter (·.repo ≠ repo)) m ↔ Start s.nodes m) := by
+        intro m _ hmr
+        unfold Start
+        constructor
+        · intro hs n hn hp hr
+          exact hs n (List.mem_filter.mpr ⟨hn, by simp only [decide_eq_true_eq, ne_eq]; rw [hr]; exact hmr⟩) hp hr
+        · intro hs n hn; exact hs n (List.mem_filter.mp hn).1
+      constructor
+      · intro m1 h1 m2 h2 n hn
+        exact h.1 m1 (List.mem_filter.mp h1).1 m2 (List.mem_filter.mp h2).1 n (List.mem_filter.mp hn).1
+      · intro m1 h1 m2 h2 hb r b s1 s2
+        have a1 := List.mem_filter.mp h1
+        have a2 := List.mem_filter.mp h2
+        exact h.2 m1 a1.1 m2 a2.1 hb r b ((hst m1 a1.1 (by simpa using a1.2)).mp s1) ((hst m2 a2.1 (by simpa using a2.2)).mp s2)
+
+theorem step_branch (s : State) (r : Req) (hi : Inv s) (hid : IdInv s) (hl : LinkInv s) (h : BranchInv s) :
+    BranchInv (step s r).1 := by
+  cases r with
+  | newRepo a => exact newRepo_branch s a hi h
+  | commit u => exact commit_branch s u h
+  | newVersion p a =>
+    simp only [step]
+    cases a with
+    | none => exact newVersion_branch s p "" none hi hid hl h
+    | some u => simp only; split <;> first | exact newVersion_branch s p "" (some u) hi hid hl h | exact h
+  | branch p name a =>
+    simp only [step]
+    split
+    · exact h
+    · cases a with
+      | none => exact newVersion_branch s p name none hi hid hl h
+      | some u => simp only; split <;> first | exact newVersion_branch s p name (some u) hi hid hl h | exact h
+  | tag p t => exact tag_branch s p t hi hid hl h
+  | merge ps => exact merge_branch s ps hi h
+  | deleteRepo u => exact deleteRepo_branch s u h
+
+theorem reachable_branch (rs : List Req) : BranchInv (rs.foldl (fun s r => (step s r).1) init) := by
+  suffices h : ∀ s, Inv s → IdInv s → LinkInv s → BranchInv s →
+      BranchInv (rs.foldl (fun s r => (step s r).1) s) by
+    exact h init ⟨by intro n hn; simp [init] at hn, by intro n hn; simp [init] at hn⟩
+      ⟨by intro n hn; simp [init] at hn, by intro n hn; simp [init] at hn, by intro n hn; simp [init] at hn⟩
+      ⟨by intro n hn; simp [init] at hn, by intro n hn; simp [init] at hn, by intro n hn; simp [init] at hn⟩
+      ⟨by intro n hn; simp [init] at hn, by intro n hn; simp [init] at hn⟩
+  induction rs with
+  | nil => intro s _ _ _ d; exact d
+  | cons r rest ih =>
+    intro s a b c d
+    exact ih _ (step_inv s r a) (step_id s r a b) (step_link s r a b c) (step_branch s r a b c d)
+
+/-- **a named branch never forks and starts once**: after any sequence of requests, two nodes of one named
+    branch of a repo that hang off the same node of that branch are the same node, and so are two nodes of the
+    branch whose parent is on another branch — so the nodes of a named branch form one chain from its start -/
+theorem named_branches_linear (rs : List Req) :
+    let s := rs.foldl (fun s r => (step s r).1) init
+    (∀ m1 ∈ s.nodes, ∀ m2 ∈ s.nodes, ∀ n ∈ s.nodes, m1.branch ≠ "" → m1.repo = n.repo → m2.repo = n.repo →
+      m1.branch = n.branch → m2.branch = n.branch → n.v ∈ m1.parents → n.v ∈ m2.parents → m1 = m2) ∧
+    (∀ m1 ∈ s.nodes, ∀ m2 ∈ s.nodes, m1.branch ≠ "" → m1.repo = m2.repo → m1.branch = m2.branch →
+      Start s.nodes m1 → Start s.nodes m2 → m1 = m2) :=
+  reachable_branch rs
+
+/- Non-vacuity: branch "dev" continued twice (a chain of three nodes), a second attempt to continue it from its
+   middle node refused, master continued beside it -/
+example :
+    let s := [Req.newRepo none, .commit "g1", .branch "g1" "dev" none, .commit "g2", .branch "g2" "dev" none,
+              .commit "g3", .newVersion "g3" none, .newVersion "g2" none, .branch "g2" "dev" none,
+              .newVersion "g1" none].foldl (fun s r => (step s r).1) init
+    (s.nodes.map (fun n => (n.v, n.parents, n.branch))) =
+      [(1, [], ""), (2, [1], "dev"), (3, [2], "dev"), (4, [3], "dev"), (5, [1], "")] := by
+  decide
+
+end Dvid.Props.C07
